@@ -32,8 +32,8 @@ MOD = {"c": "C", "cpp": "Cpp", "py": "Py", "html": "Html"}
 
 # source classes (Model/Tpl.lean `Src`)
 TIME, ABSPATH, PLATFORM, HASHORDER, RANDOM, SIBLINGS = "time", "absPath", "platform", "hashOrder", "random", "siblings"
-PS_UNIQ, PS_MEMO, PS_TPLCACHE = "psUniqueName", "psMemo", "psTemplateCache"
-ALL_SRC = [TIME, ABSPATH, PLATFORM, HASHORDER, RANDOM, SIBLINGS, PS_UNIQ, PS_MEMO, PS_TPLCACHE]
+PS_UNIQ, PS_MEMO, PS_TPLCACHE, PS_MODELCACHE = "psUniqueName", "psMemo", "psTemplateCache", "psModelCache"
+ALL_SRC = [TIME, ABSPATH, PLATFORM, HASHORDER, RANDOM, SIBLINGS, PS_UNIQ, PS_MEMO, PS_TPLCACHE, PS_MODELCACHE]
 
 
 class TieBroken(Exception):
@@ -193,8 +193,11 @@ class Scanner:
                           "Path.cwd", "pathlib.Path.cwd", "Path.home", "pathlib.Path.home", "tempfile.mkdtemp",
                           "tempfile.gettempdir", "tempfile.mkstemp") or last in ("resolve", "absolute", "getcwd", "expanduser"):
                     classes.add(ABSPATH); notes.append(f"calls {dn or last}")
-                if dn in ("pickle.dumps", "pickle.dump", "marshal.dumps", "marshal.dump", "dill.dumps"):
+                if dn in ("pickle.dumps", "pickle.dump", "marshal.dumps", "marshal.dump", "dill.dumps", "copy.deepcopy"):
                     classes.add(ABSPATH); notes.append(f"{dn}: serialises whole objects (the pydsdl model holds absolute source paths)")
+                    # ... and the lazily filled caches inside the shared model objects (pydsdl BitLengthSet operators memoise
+                    # `% n` / expansions): their fill state depends on what was asked of the shared objects earlier in the process
+                    classes.add(PS_MODELCACHE); notes.append(f"{dn}: serialises the fill state of caches inside the shared model objects")
                 if dn in ("id", "hash") and node.args:
                     classes.add(HASHORDER); notes.append(f"calls {dn}()")
                 if dn.startswith("random.") or dn.startswith("secrets.") or dn.startswith("uuid.") or dn in ("os.urandom",):
